@@ -1,5 +1,6 @@
 import XcpModel.Walker
 import XcpProofs.DerefTree
+import XcpProofs.DerefConc
 import XcpProofs.WalkerLemmas
 /-! # C13 — `--dereference` copies what links point to, or fails; never leaves links or gaps
 
@@ -138,5 +139,23 @@ theorem no_tree_through_the_links_means_failure (fs : Fs) (c : Cfg) (hd : c.dere
     (h : derefS fs fuel src.names [] = none) :
     (execOps fs c (walkEntry fs c none src tb fuel [] [])).exit = .err :=
   run_fails_of_no_tree fs c hd hn hroot hsk src tb hsrc htb fuel h
+
+/-- … under EVERY interleaving of the walker with the workers (any worker count, either driver): in terms of the source
+node, with every link leading to something copyable (`derefNode … = some m`), no operation can be made to fail and every
+complete run of the concurrent model leaves `m` — the source with each link replaced by what it leads to — at the target -/
+theorem every_interleaving_leaves_the_dereferenced_tree (fs : Fs) (c : Cfg) (hd : c.dereference = true) (hn : c.noClobber = false)
+    (src tb : RPath) (srcNode m : Node) (fuel : Nat)
+    (hwf : FsEq fs fs)
+    (hsrc : AbsNames src) (hsn : fs.root.getAt src.names = some srcNode)
+    (hcop : srcNode.Copyable fuel)
+    (hder : derefNode fs srcNode src.names = some m)
+    (htb : PlainTarget fs tb) (hne : tb.names ≠ []) (habs : fs.root.getAt tb.names = none)
+    (hpar : ∃ es, fs.root.getAt tb.names.dropLast = some (.dir es))
+    (hlen : src.names.length + fuel < 255 ∧ tb.names.length + fuel < 255)
+    (ls : List L0.Label) (st : L0.St)
+    (hrun : L0.run c (L0.init fs (walkEntry fs c none src tb (fuel + 1) [] [])) ls = some st) :
+    st.failed = false ∧
+    (L0.final st = true → FsEq st.fs { fs with root := fs.root.setAt tb.names m }) :=
+  deref_fresh_concurrent_node fs c hd hn src tb srcNode m fuel hwf hsrc hsn hcop hder htb hne habs hpar hlen ls st hrun
 
 end Xcp.C13
